@@ -213,6 +213,20 @@ pub fn renet_values(tier: Tier) -> Vec<Packet> {
             });
         }
     }
+    if tier == Tier::Thorough {
+        for bits in 1u32..(1 << 16) {
+            let mut ranges: Vec<std::ops::Range<u64>> = vec![];
+            for i in 0..16u64 {
+                if bits & (1 << i) != 0 {
+                    match ranges.last_mut() {
+                        Some(r) if r.end == i => r.end = i + 1,
+                        _ => ranges.push(i..i + 1),
+                    }
+                }
+            }
+            out.push(Packet::Ack { sequence: (bits as u64) << 3, ack_ranges: ranges.iter().map(|r| r.start + 60..r.end + 60).collect() });
+        }
+    }
     for n in [63u64, 64] {
         for sp in [2u64, 3, 64, 16_384, 1 << 30, 1 << 55] {
             for width in [1u64, 2] {
